@@ -294,13 +294,13 @@ AnyItems(ch, i, xs, j, level, first, last, env, st, acc) ==
 UnaryEach(ch, i, op, xs, j, env, st, acc) ==
   IF j > Len(xs) THEN R(acc, "none", st)
   ELSE IF xs[j].t = "anyid" THEN R(acc, "opaque", st)
-  ELSE IF xs[j].t # "num" THEN
+  ELSE IF xs[j].t # "num" \/ IsBadJNum(xs[j]) THEN     \* not a number, or a json.Number no float64 holds
          IF "unary-nonnum-exists" \in env.dev /\ env.exm /\ i = Len(ch)
          THEN R(Append(acc, xs[j]), "none", st)       \* counted as found (deviation)
          ELSE R(acc, "verbose", st)
   ELSE LET u == NumUnary(op, xs[j])
        IN IF ~u.ok THEN R(acc, ErrOf(u.err, env), st)
-          ELSE LET r == Cont(ch, i, u.v, env, st)
+          ELSE LET r == Cont(ch, i, MarkZ(u.v), env, st)
                IN IF Failed(r) THEN R(acc \o r.items, r.err, r.st)
                   ELSE IF Found(env, r) THEN R(acc \o r.items, "none", r.st)
                   ELSE UnaryEach(ch, i, op, xs, j + 1, env, r.st, acc \o r.items)
@@ -338,11 +338,12 @@ Method(ch, i, name, v, env, st) ==
          IF v.t = "anyid" THEN R(<<>>, "opaque", st)
          ELSE IF v.t # "num" THEN R(<<>>, "verbose", st)
          ELSE LET u == NumUnary(name, v)
-              IN IF u.ok THEN Cont(ch, i, u.v, env, st) ELSE R(<<>>, ErrOf(u.err, env), st)
+              IN IF u.ok THEN Cont(ch, i, MarkZ(u.v), env, st) ELSE R(<<>>, ErrOf(u.err, env), st)
     [] OTHER ->
          IF v.t = "anyid" THEN R(<<>>, "opaque", st)
+         ELSE IF name = "string" /\ IsMarkedZero(v) THEN R(<<>>, "opaque", st)     \* "0" or "-0": the sign of a computed zero is not tracked
          ELSE LET u == ConvMethod(name, v)
-              IN IF u.ok THEN Cont(ch, i, u.v, env, st) ELSE R(<<>>, ErrOf(u.err, env), st)
+              IN IF u.ok THEN Cont(ch, i, MarkZ(u.v), env, st) ELSE R(<<>>, ErrOf(u.err, env), st)
 
 -----------------------------------------------------------------------------
 Exec(ch, i, v, env, st0, unwrap) ==
@@ -404,7 +405,7 @@ Exec(ch, i, v, env, st0, unwrap) ==
       IF v.t = "arr" /\ unwrap THEN EachSame(ch, i, v.a, 1, env, st, <<>>)
       ELSE IF v.t = "anyid" THEN R(<<>>, "opaque", st)
       ELSE LET u == DecimalMethod(n, v)
-           IN IF u.ok THEN Cont(ch, i, u.v, env, st) ELSE R(<<>>, ErrOf(u.err, env), st)
+           IN IF u.ok THEN Cont(ch, i, MarkZ(u.v), env, st) ELSE R(<<>>, ErrOf(u.err, env), st)
  [] n.k = "dt" ->
       IF v.t = "arr" /\ unwrap THEN EachSame(ch, i, v.a, 1, env, st, <<>>)
       ELSE LET u == DTMethod(n, v, env.useTZ, env.zone)
@@ -419,7 +420,7 @@ Exec(ch, i, v, env, st0, unwrap) ==
                  ELSE IF l.items[1].t = "anyid" \/ r.items[1].t = "anyid"
                       THEN R(<<>>, "opaque", r.st)
                  ELSE LET m == MathOp(n.op, l.items[1], r.items[1], env.pol.quot)
-                      IN IF m.ok THEN Cont(ch, i, m.v, env, r.st)
+                      IN IF m.ok THEN Cont(ch, i, MarkZ(m.v), env, r.st)
                          ELSE R(<<>>, ErrOf(m.err, env), r.st)
  [] n.k = "un" /\ n.op \in {"plus", "minus"} ->
       LET s == Operand(n.x, v, env, st, TRUE)
@@ -450,9 +451,10 @@ Par0 == [cancelAt |-> 0, choice |-> <<>>, pol |-> Pol0, dev |-> {}, exm |-> FALS
 (*                    unary_is_unknown_true.                                *)
 (*   unary-nonnum-exists   when unary + or - is the last step and only      *)
 (*                    existence is asked (lax Exists, lax exists()), a      *)
-(*                    non-numeric operand counts as a found item instead of *)
+(*                    non-numeric operand (or a json.Number outside the     *)
+(*                    float64 range) counts as a found item instead of      *)
 (*                    raising the operand error (C06, C13); pinned by       *)
-(*                    TestExecUnaryMathExpr/nan (okNoList).                 *)
+(*                    TestExecUnaryMathExpr/nan (okNoList) and /json_bad.   *)
 DevNames == {"idx-drops-null", "isunknown-swallows-hard", "unary-nonnum-exists"}
 Policies == [vh : {"verbose", "hard"}, quot : {"trunc", "exact"}]
 
